@@ -695,7 +695,13 @@ def check(run, repo):
         'through the real writers into the file model and read with the real read_reactions, whose regular expressions '
         'are decided on the abstract lines (pmv/absre.py) for three spellings of the printed numbers (above one, below '
         'one, negative where the quantity can be): reactants, products, coefficients and equation text must be the '
-        'model\'s; a str.replace that can reach into a species name is reported.')
+        'model\'s; a str.replace that can reach into a species name is reported. The read-back is repeated for files '
+        'written with blank-padded and arrow delimiters, a tab between the columns and other number formats. The '
+        'mechanism has a step that consumes the bulk species of its site (listed on the BULK line only, not counted '
+        'as a surface reactant: A = kB/h written in the rule), every activation-method name (E, H, G, dimensional and '
+        'dimensionless) is run through both writers, EA lines carry reactants and products of their reaction only, '
+        'tube_mole.inp names each species in the phase it belongs to (GAS or its site), and EAs.inp, T_flow.inp, '
+        'tube_mole.inp written to a file have the data lines of the text returned without a file name.')
     run.assumptions = ['species names are distinct symbolic texts; stoichiometric coefficients are small integers',
                        'E-format widths assume |exponent| < 100']
     run.undecided = ['read_reactions on files pMuTT did not write; species names outside the grammar letter + '
